@@ -464,8 +464,17 @@ func c18(ctx *core.Ctx) {
 			// "switching a container's router is unobservable": both twins were configured with the other router first
 			ba.Switched, bb.Switched = true, true
 		}
-		cs[0] = rt.Build(t, ba)
-		cs[1] = rt.Build(t, bb)
+		// every sixth table lives on WebServices with dynamic routes: after the first pass a route is removed on both twins
+		dyn := ti%6 == 5
+		var wsA, wsB []*restful.WebService
+		if dyn {
+			ba.Dynamic, bb.Dynamic = true, true
+			cs[0], wsA = rt.BuildWS(t, ba)
+			cs[1], wsB = rt.BuildWS(t, bb)
+		} else {
+			cs[0] = rt.Build(t, ba)
+			cs[1] = rt.Build(t, bb)
+		}
 		for _, c := range cs {
 			// application code may write into the parameter map it is handed; both routers must hand out a map of the request's own
 			c.Filter(func(req *restful.Request, resp *restful.Response, chain *restful.FilterChain) {
@@ -475,35 +484,15 @@ func c18(ctx *core.Ctx) {
 				chain.ProcessFilter(req, resp)
 			})
 		}
-		rr := ctx.Rand(ti, "req")
-		var reqs []rt.Req
-		var seqA, seqB []string
-		for qi := 0; qi < perTable; qi++ {
-			req := rt.GenReq(rr, t, "common")
-			if _, clean := rt.Tokens(req.Path); !clean {
-				continue
-			}
-			if req.Hdr == nil {
-				req.Hdr = map[string]string{}
-			}
-			req.Hdr["X-Req"] = fmt.Sprintf("%d-%d", ti, qi)
-			reqs = append(reqs, req)
-			seqA = append(seqA, "")
-			seqB = append(seqB, "")
-			a := rt.Run(cs[0], rt.Dispatch, &req)
-			b := rt.Run(cs[1], rt.Dispatch, &req)
-			seqA[len(seqA)-1], seqB[len(seqB)-1] = a.Sig(), b.Sig()
-			ctx.Eval(2)
-			shape := req.Class
-			if rid := a.RID(); rid >= 0 {
-				s, rs := t.Route(rid)
-				shape = rt.Full(s, rs).Shape()
-			}
-			if a.Status != 404 || b.Status != 404 {
-				ctx.Sig(fmt.Sprintf("%s|%s", a.Class(), shape))
-			}
+		removed := map[int]bool{}
+		judge := func(req rt.Req, a, b *rt.Outcome, phase string) {
 			if a.Sig() != b.Sig() {
 				sig := "c18:" + a.Class() + "-vs-" + b.Class()
+				if removed[a.RID()] || removed[b.RID()] {
+					ctx.Violation(ti, "c18:removed-route-runs", fmt.Sprintf("%s %q after RemoveRoute on both twins: CurlyRouter -> %s, RouterJSR311 -> %s", req.Method, req.Path, a.Sig(), b.Sig()),
+						caseDoc{Router: "curly-vs-jsr311", Entry: rt.Dispatch, Table: t, Req: req, Obs: a, Want: b.Sig(), Note: "removed routes: " + fmt.Sprint(removed)})
+					return
+				}
 				if ra, rb := a.RID(), b.RID(); ra >= 0 && rb >= 0 && ra != rb {
 					sa, ta := t.Route(ra)
 					sb, tb := t.Route(rb)
@@ -533,11 +522,87 @@ func c18(ctx *core.Ctx) {
 						sig = "c18:rank-same-shape"
 					}
 				}
-				ctx.Violation(ti, sig, fmt.Sprintf("%s %q (ct=%q accept=%q body=%d): CurlyRouter -> %s, RouterJSR311 -> %s", req.Method, req.Path, req.CT, req.Accept, req.BodyLen, a.Sig(), b.Sig()),
+				ctx.Violation(ti, sig, fmt.Sprintf("%s%s %q (ct=%q accept=%q body=%d): CurlyRouter -> %s, RouterJSR311 -> %s", phase, req.Method, req.Path, req.CT, req.Accept, req.BodyLen, a.Sig(), b.Sig()),
 					caseDoc{Router: "curly-vs-jsr311", Entry: rt.Dispatch, Table: t, Req: req, Obs: a, Want: b.Sig()})
 			}
+		}
+		rr := ctx.Rand(ti, "req")
+		var reqs []rt.Req
+		var seqA, seqB []string
+		for qi := 0; qi < perTable; qi++ {
+			req := rt.GenReq(rr, t, "common")
+			if _, clean := rt.Tokens(req.Path); !clean {
+				continue
+			}
+			if req.Hdr == nil {
+				req.Hdr = map[string]string{}
+			}
+			req.Hdr["X-Req"] = fmt.Sprintf("%d-%d", ti, qi)
+			reqs = append(reqs, req)
+			seqA = append(seqA, "")
+			seqB = append(seqB, "")
+			a := rt.Run(cs[0], rt.Dispatch, &req)
+			b := rt.Run(cs[1], rt.Dispatch, &req)
+			seqA[len(seqA)-1], seqB[len(seqB)-1] = a.Sig(), b.Sig()
+			ctx.Eval(2)
+			shape := req.Class
+			if rid := a.RID(); rid >= 0 {
+				s, rs := t.Route(rid)
+				shape = rt.Full(s, rs).Shape()
+			}
+			if a.Status != 404 || b.Status != 404 {
+				ctx.Sig(fmt.Sprintf("%s|%s", a.Class(), shape))
+			}
+			judge(req, a, b, "")
 			if ctx.WantSample() && a.RID() >= 0 {
 				ctx.Sample(map[string]interface{}{"request": req, "curly": a.Sig(), "jsr311": b.Sig()})
+			}
+		}
+		if dyn && len(reqs) > 0 {
+			// RemoveRoute on both twins (preferably a route that some request of the first pass ran), then the same requests
+			// again: what is gone is gone for both routers, what remains is ranked as before
+			victim := -1
+			for i := range reqs {
+				if o := rt.Run(cs[0], rt.Dispatch, &reqs[i]); o.RID() >= 0 && (victim < 0 || rr.Chance(1, 3)) {
+					victim = o.RID()
+				}
+			}
+			if victim >= 0 {
+				vs, vr := t.Route(victim)
+				for si := range t.Svcs {
+					if &t.Svcs[si] != vs || wsA[si] == nil || wsB[si] == nil {
+						continue
+					}
+					for _, lr := range wsA[si].Routes() {
+						if id, ok := lr.Metadata["rid"].(int); ok && id == victim {
+							for _, other := range wsA[si].Routes() {
+								if oid, ok := other.Metadata["rid"].(int); ok && other.Path == lr.Path && other.Method == lr.Method {
+									removed[oid] = true // RemoveRoute takes all routes of that method and path
+								}
+							}
+							wsA[si].RemoveRoute(lr.Path, lr.Method)
+							wsB[si].RemoveRoute(lr.Path, lr.Method)
+							break
+						}
+					}
+				}
+				if len(removed) > 0 {
+					ctx.Count("tables_with_a_route_removed_on_both_twins", 1)
+					phase := fmt.Sprintf("after RemoveRoute(%s %s) on both twins: ", vr.Method, rt.Full(vs, vr))
+					for i := range reqs {
+						a := rt.Run(cs[0], rt.Dispatch, &reqs[i])
+						b := rt.Run(cs[1], rt.Dispatch, &reqs[i])
+						seqA[i], seqB[i] = a.Sig(), b.Sig()
+						ctx.Eval(2)
+						ctx.Count("requests_after_remove_route", 1)
+						if removed[a.RID()] || removed[b.RID()] {
+							ctx.Violation(ti, "c18:removed-route-runs", fmt.Sprintf("%s%s %q: CurlyRouter -> %s, RouterJSR311 -> %s", phase, reqs[i].Method, reqs[i].Path, a.Sig(), b.Sig()),
+								caseDoc{Router: "curly-vs-jsr311", Entry: rt.Dispatch, Table: t, Req: reqs[i], Obs: a, Want: b.Sig()})
+							continue
+						}
+						judge(reqs[i], a, b, phase)
+					}
+				}
 			}
 		}
 		if ti%4 == 0 && len(reqs) > 0 {
